@@ -34,4 +34,24 @@ CLAIMS = {
         "text": "Proved: a reply is accepted iff ID, QR, opcode and question match, TC is clear and rcode is NoError/NameError (exact characterisation, so any mismatch discards it as a whole); answer and CNAME results of the filter are sub-lists of the reply's answer section. The full 'only allowed records' statement (CNAMEs on a path from the question name, asked type at its end, NS owned by the deepest enclosing zone below the current delegation, glue only for those hosts, SOA rules for NODATA) is checked on every adversarial reply by the Impl-vs-Spec oracle USpec.checkValidated and Impl-vs-Model exactly; its theorem is being proved.",
         "note": "Trusted: Lean kernel; model<->Rust tie differential (through the cfg-guarded wrappers). Found and fixed F8 (off-path CNAMEs) and F9 (NS with foreign owner).",
     },
+    "C01": {
+        "text": "Model of resolve_local / the three resolver modes tied to the Rust by whole-resolution scenarios (nested authoritative and non-authoritative zones, wildcards, CNAMEs, delegations, conflicting cache contents and upstream answers; auth-only, recursive, forwarding) with exact comparison of result, upstream exchange log, elapsed time and cache dump. Proved so far: a name error can only come from an authoritative local name error; prioritising_merge never displaces or supplements local records of a (name,type). Oracle per case: authoritative answers/name errors equal the owning zone's data with an empty exchange log; non-authoritative local records returned exactly; NXDOMAIN only from an authoritative zone; records for owned names come from the zone. Mode-independence theorems are being proved.",
+        "note": "Partial until the whole-machine theorems close; open finding F11 (upstream records at a CNAME tail for locally owned names) is matched by signature K1 if it appears.",
+    },
+    "C10": {
+        "text": "Proved for every zones/cache/question: at the recursion limit no further alias is followed (RecursionLimit), and a question already on the stack is refused (DuplicateQuestion) — so no alias is followed twice and depth is bounded by 32 for chains of every length. Oracle per case (chains 0-40, cycles, links in zones/cache/upstream, three modes): any ok result for a type other than CNAME/ANY is ChainShaped (CNAMEs in order from the question name, distinct owners, then only records of the asked type at the final target). ChainShaped theorems for the three machines are being proved.",
+        "note": "D7 assumed for upstream links; native stack per recursion level observed only.",
+    },
+    "C07": {
+        "text": "Generated consistent universes (depth 1-4, 1-3 nameservers per zone, in/out-of-zone nameserver names, glue for in-bailiwick hosts only, cross-zone CNAMEs, missing names/types), served by the mock transport from the same authoritative data; oracle: the resolver's answer equals what the authoritative data holds (chain + final RRset, or empty + the zone's SOA); Impl-vs-Model exact on single-nameserver universes. Proved: the filter only yields referrals to zones enclosing the question with strictly more labels than the delegation in use (C06_delegation_closer, when merged) and the glue short-cut only returns a record of the referral. Correctness over all universes is NOT proved (stream-checked).",
+        "note": "Partial: correctness is oracle-checked on generated universes, not a theorem; HashSet order quantified by skipping model equality on multi-NS universes.",
+    },
+    "C08": {
+        "text": "The recursive and forwarding machines are total Lean functions over an arbitrary upstream oracle. Proved: an exchange costs at most 5 s per transport, never moves the clock past 60 s, and a reply arriving at or after 5 s is never used; budgets (60 s, 5 s, 32) re-extracted from source. Fault scenarios (drop, delays up to 70 s, garbage, wrong ID, TC, error rcodes, lame/circular referrals, alias loops, unresolvable NS names, question mismatch, TCP fallback) run through the real resolver on tokio's paused clock: result, exchange log, elapsed virtual time and cache compared exactly with the model; oracle: elapsed <= 60 s, no panic, every returned record occurs in local data or an upstream reply. Fuel-suffices and whole-run budget theorems are being proved.",
+        "note": "Partial: tokio cancellation semantics are its contract; observed under the paused clock.",
+    },
+    "C18": {
+        "text": "Proved: only-v4 looks nameserver addresses up as A only, only-v6 as AAAA only, prefer-vX asks X's type first; get_ip returns IPv4 for A and IPv6 for AAAA only. Oracle on every universe/fault scenario x four modes: under only-vX every contacted address is of family X, every exchange uses the configured port, forwarding mode contacts only the forwarder, authoritative-only mode contacts nobody; the model's exchange log equals the implementation's exactly (single-NS universes). Whole-machine log theorems are being proved.",
+        "note": "Addresses are observed at the mock transport (socket layer replaced).",
+    },
 }
